@@ -158,9 +158,17 @@ def state_of(ch):
     if hasattr(ch, "params"):
         return (ch.chain_length, [list(map(float, p.samples)) for p in ch.params],
                 list(map(float, ch.probs)), [float(p.sigma) for p in ch.params],
-                [[str(v) for _, v in p.rng.log[-3:]] for p in ch.params], len(ch.rng.log))
+                [[str(v) for _, v in rng_log(p.rng)[-3:]] for p in ch.params], len(rng_log(ch.rng)))
     return (ch.chain_length, [list(map(float, t)) for t in ch.theta], list(map(float, ch.probs)),
-            len(ch.rng.log))
+            len(rng_log(ch.rng)))
+
+
+def rng_log(rng):
+    """The draws recorded by the chain's (logging) generator.  A chain that comes back holding some other
+    generator -- one the code under test substituted for the chain's own -- has no record: that is a
+    difference from the serially advanced chain (whose generator state the property speaks of), not a crash."""
+    log = getattr(rng, "log", None)
+    return log if log is not None else [("generator replaced", type(rng).__name__)] * 10 ** 6
 
 
 @contextlib.contextmanager
@@ -744,8 +752,10 @@ def run(rep: C.Report, tier: str) -> int:
         bad = []
         for i, (a, b) in enumerate(zip(result, serial)):
             if state_of(a) != state_of(b):
+                swapped = "" if hasattr(getattr(a, "rng", None), "log") or isinstance(a, StubChain) else \
+                    f"; the pooled chain no longer holds its own random generator but a {type(a.rng).__name__}"
                 bad.append(f"chain {i} of the pool differs from the same chain advanced serially "
-                           f"(lengths {counts(a)} vs {counts(b)})")
+                           f"(lengths {counts(a)} vs {counts(b)}){swapped}")
         if len(result) != size:
             bad.append(f"pool returned {len(result)} chains for {size}")
         obs = []
